@@ -83,3 +83,26 @@ prop("C12", "proof",
         replace=["rf_pack_u16le", "rf_pack_u32le", "rf_pack_s16le", "rf_pack_s32le", "rf_unpack_u16le", "rf_unpack_u32le"], unwind=9, timeout=300, solvers=("cadical", "minisat"))],
      assumptions=["scope of the record: total requested bytes below 2^31, so the cursor offset stays below 2^31",
                   "CBMC models of malloc, memcpy, memset"])
+
+# ---------------------------------------------------------------------------- C14
+WD = "harness/C14_wavdecode.c"
+_PK_ENFORCERS = lambda tiers=("quick", "thorough"): [H("callee_" + x, PK, "h_" + x, ["rf_" + x], enforce=["rf_" + x], unwind=9, timeout=300,
+                                                     solvers=("cadical", "minisat"), cover=False, tiers=tiers) for x in
+                                                   ["unpack_bytes", "unpack_u16le", "unpack_u32le", "pack_init"]]
+prop("C14", "proof",
+     "Contract on rf_wavheader_decode over a byte string of symbolic length < 2^31 in an exactly-sized object with symbolic content (DESIGN P2): "
+     "every read is inside the object (CBMC dereference checks on the real pack.c/wavheader.c code); the result is negative, or beyond the supplied "
+     "length, or exactly the number of bytes the field walk consumes (recomputed in 64-bit arithmetic from the decoded fields) and at least "
+     "RF_WAVHEADER_MIN_SIZE. Truncation lemma: decoding any proper prefix of an accepted header is never a success. "
+     "validate/get_format/tostring are run on a structure with arbitrary contents; every CBMC check (division by zero included) is an obligation.",
+     [
+      H("decode", WD, "h_decode", ["rf_wavheader_decode"], enforce=["rf_wavheader_decode"], unwind=97, timeout=600, solvers=("cadical", "minisat"),
+        externals=["strdup_printf"]),
+      H("decode_truncated", WD, "h_truncate", ["rf_wavheader_decode"], unwind=97, timeout=900, solvers=("cadical", "minisat")),
+      H("helpers", WD, "h_helpers", ["rf_wavheader_validate", "rf_wavheader_get_format", "rf_wavheader_tostring"], unwind=97, timeout=300,
+        solvers=("cadical", "minisat")),
+      H("validate", WD, "h_helpers", ["rf_wavheader_validate"], enforce=["rf_wavheader_validate"], unwind=97, timeout=300, cover=False),
+      H("get_format", WD, "h_get_format", ["rf_wavheader_get_format"], enforce=["rf_wavheader_get_format"], unwind=97, timeout=300, cover=False),
+     ],
+     trusted=["strdup_printf (librfn/string.c: vsnprintf + malloc) is external and stubbed; CBMC models of malloc/memcpy/memset/memcmp"],
+     assumptions=["the callees of pack.c are inlined in the decode harnesses (their own contracts are enforced under C12)"])
